@@ -7,12 +7,11 @@ cd $W || exit 2
 build() { cmake -G Ninja -B _build -DBUILD_TESTS=ON -DCMAKE_BUILD_TYPE=RelWithDebInfo >/dev/null 2>&1 && cmake --build _build >/dev/null 2>&1; }
 demo() { cc -g -O1 -I $W/Lib/core/public -I $W/Lib/structs/public -I $W/Lib/mem/public -I $W/Lib/thpool/public $O/demo.c -L $W/_build -lmodule_core -lmodule_structs -lmodule_mem -lmodule_thpool -lpthread -Wl,-rpath,$W/_build -o $R/demo_$ID 2>$R/demo_$ID.err || { echo "demo build failed"; cat $R/demo_$ID.err | head; return 99; }; timeout 60 $R/demo_$ID >$R/demo_$ID.out 2>&1; }
 # 1. with the change
-git stash list | grep -q . && { echo "stash not empty"; exit 2; }
 git diff --quiet && { echo "no change applied in $W"; exit 2; }
 build || { echo "BUILD FAILED with change"; exit 1; }
 ctest --test-dir _build --timeout 900 > $R/ctest_$ID.out 2>&1; t=$?
 demo; d1=$?
 # 2. without the change
-git stash -q; build; demo; d0=$?; git stash pop -q; build
+git diff > $R/applied_$ID.diff; git apply -R $R/applied_$ID.diff; build; demo; d0=$?; git apply $R/applied_$ID.diff; build   # (git stash is shared between worktrees: never use it here)
 echo "$ID: tests_with_change=$t demo_with_change=$d1 demo_without_change=$d0"
 [ $t -eq 0 ] && [ $d1 -ne 0 ] && [ $d0 -eq 0 ] && echo "$ID CONFIRMED" || echo "$ID NOT CONFIRMED"
